@@ -1,7 +1,32 @@
+import AuModel.Policy
 import Driver.Util
+import Driver.Cmd.C02
+
+/-! Driver commands for C06.
+
+  policy <R2> <R1> <samedim 0|1> <sf magpack>   →  permit=<0|1> core=<0|1> carve=<0|1> asperm=<0|1>
+      R2 = target rep, R1 = source rep, sf = Mag(source unit) / Mag(target unit);
+      asperm = ImplicitRepPermitted<R1, sf> (unit-only `.as(u)` on the source)
+-/
 open Au
 
-def dispatchC06 : List String → Option String
-  | _ => none
+def parseRep? (s : String) : Option Rep :=
+  match IntTy.ofName? s, FltTy.ofName? s with
+  | some t, _ => some (.int t)
+  | none, some f => some (.flt f)
+  | none, none => none
 
-/-! Driver commands for C06. -/
+def cmdPolicy (args : List String) : String :=
+  match args with
+  | [r2, r1, sd, ms] =>
+    match parseRep? r2, parseRep? r1, parseMag? ms with
+    | some rep, some src, some sf =>
+      if sd != "0" && sd != "1" then "bad-op" else
+      let sameDim := sd == "1"
+      s!"permit={b01 (permitImplicitFrom sameDim rep sf src)} core={b01 (corePolicy rep sf src)} carve={b01 (carveOut rep sf src)} asperm={b01 (implicitRepPermitted src sf)}"
+    | _, _, _ => "bad-op"
+  | _ => "bad-op"
+
+def dispatchC06 : List String → Option String
+  | "policy" :: args => some (cmdPolicy args)
+  | _ => none
